@@ -896,3 +896,38 @@ def mesen_header_rule(run, R="MPT"):
                 run.check(bool(re.search(r"BigInt::maybe_into\(P\d+\)", expr)), R, R + "|mesen-header|binop", g.loc(st["span"]), "header subtracted from the full offset",
                           "format_mesen_mlb subtracts the 16-byte header from `%s`, which does not include the label's address" % expr[:200])
     run.floor(R, "header subtractions in format_mesen_mlb", n, 1)
+
+
+def alignment_rules(run, R="ALIGN"):
+    """label values are absolute addresses, so every alignment of the bank position (`#align`, `#labelalign`) is computed from
+    the absolute address (bank start address x unit + position), never from the position inside the bank alone"""
+    prog = run.prog
+    n = 0
+    for f in prog.real_fns():
+        root = f.raw.get("root") or f.id
+        if not root.startswith("asm::resolver::iter::") and not root.startswith("asm::resolver::align") and not root.startswith("asm::resolver::label"):
+            continue
+        # raw remainders
+        for bi, si, st in f.stmts():
+            if st["k"] == "assign" and st["rv"]["k"] == "binop" and st["rv"]["op"] == "Rem" and not st["span"].get("mac"):
+                d = _deep(f, st["rv"]["l"], 8)
+                if _deep(f, st["rv"]["r"], 5).endswith(".addr_unit"):
+                    continue        # whole addressable units inside the bank: the address itself is addr_start + position / unit
+                if "cur_position" in d or "position" in d:
+                    n += 1
+                    run.check("addr_start" in d, R, "%s|remainder|%s" % (R, root), f.loc(st["span"]), "remainder taken on the absolute address",
+                              "%s aligns `%s`, a position inside the bank, without the bank's start address: labels of a bank whose start address is not a multiple of the alignment get the wrong value" % (root, d[:120]))
+        for bi, t in f.calls():
+            c = t.get("resolved") or t.get("callee") or ""
+            if c.endswith("iter::bits_until_alignment"):
+                n += 1
+                d = _deep(f, t["args"][2], 10)
+                ok = "addr_start" in d and "addr_unit" in d and "cur_position" in d
+                run.check(ok, R, "%s|absolute|%s" % (R, root), f.loc(t["span"]), "%s aligns addr_start x addr_unit + position" % root.rsplit("::", 1)[-1],
+                          "%s asks for the padding of `%s`, expected the absolute bit address (addr_start x addr_unit + cur_position)" % (root, d[:160]))
+    run.floor(R, "alignment computations", n, 2)
+    g = run.anchor(R, "asm::resolver::iter::bits_until_alignment")
+    if g is not None:
+        cm = calls_to(g, "BigInt::checked_mod")
+        ok = len(cm) == 1 and _deep(g, cm[0][1]["args"][0]) == "P3"
+        run.check(ok, R, R + "|helper", g.loc(), "bits_until_alignment takes the remainder of the address it is given", "bits_until_alignment no longer takes the remainder of its address argument")
